@@ -72,6 +72,12 @@ def perform(op, ctx):
             return "<no hit result: the fire it refers to did not complete>"
         look = ctx.arg(op.get("look"))
         return hit.danger_space(ctx.arg(op["at"]), ctx.arg(op["height"]), look)
+    if k == "at_dist":
+        hit = ctx.hits.get(op["fire"])
+        if hit is None:
+            return "<no hit result: the fire it refers to did not complete>"
+        d = ctx.arg(op["d"])
+        return [hit.index_at_distance(d), hit.get_at_distance(d)]
     if k == "new_calc":
         return snap_calc(b.calc(op["calc"]))
     if k == "mk":
